@@ -137,6 +137,28 @@ def handle (toks : List String) (impl : String) : Verdict :=
                     else some s!"reader did not end in a value or an error: {impl}" }
       | none => badOp "kind"
     | none => badOp "hex"
+  | ["tryfix", kind, hx] =>
+    match parseHexN hx with
+    | some b =>
+      let spec : Option (Nat × Nat) :=
+        if kind = "notify" then some (pduSerialNotify, sizeSerialNotify)
+        else if kind = "squery" then some (pduSerialQuery, sizeSerialQuery)
+        else if kind = "rquery" then some (pduResetQuery, sizeResetQuery)
+        else if kind = "cresp" then some (pduCacheResponse, sizeCacheResponse)
+        else if kind = "creset" then some (pduCacheReset, sizeCacheReset)
+        else none
+      match spec with
+      | some (pdu, size) =>
+        let m := match tryReadFixed pdu size b with
+          | .ok (.inl (h, body), rest) => s!"ok {h.version} {h.session} {hexN body} consumed={b.length - rest.length}"
+          | .ok (.inr h, rest) => s!"hdr {hexN (encHdr h)} consumed={b.length - rest.length}"
+          | .error .eof => "err eof"
+          | .error .invalid => "err invalid"
+        { model := some m,
+          oracle := if impl.startsWith "ok " ∨ impl.startsWith "hdr " ∨ impl = "err eof" ∨ impl = "err invalid" ∨ impl = "skipped-after-hangs" then none
+                    else some s!"reader did not end in a value or an error: {impl}" }
+      | none => badOp "kind"
+    | none => badOp "hex"
   | ["ctl", kind, ver, sess, serial, timing] =>
     match ver.toNat?, sess.toNat?, serial.toNat?, Driver.C13.parseList timing with
     | some v, some se, some sr, some tm =>
